@@ -12,10 +12,64 @@ pub fn run(ctx: &Ctx, rec: &mut Rec) {
     let c = &ctx.c;
     let f = &c.f;
     let mut zrng = rng_for(ctx.seed, P, 999, 0);
-    let mut inputs = field_zoo(f);
+    let mut inputs: Vec<(B, &'static str)> = field_zoo(f);
     inputs.extend(field_random(f, &mut zrng, ctx.scale(60_000, 2_000_000)));
-    for cl in ["zero", "one", "p-1", "root-of-unity-2^k", "small-int", "random", "branch:square", "branch:nonsquare"] {
+    for cl in ["zero", "one", "p-1", "root-of-unity-2^k", "small-int", "random", "branch:square", "branch:nonsquare", "engineered-sqrt-exponent"] {
         rec.declare_class(cl);
+    }
+    // engineered inputs: r0 for which the value handed to the square root inside the map has a
+    // chosen 2-primary component (every value of every table window, powers of two, 0, all-ones)
+    {
+        let sy = crate::c09::sylow(ctx);
+        let targets = crate::c09::structured_exponents(ctx.scale(1, 1));
+        let found: std::sync::Mutex<Vec<(B, &'static str)>> = std::sync::Mutex::new(Vec::new());
+        par(rec, |w, n, rec| {
+            let mut rng = rng_for(ctx.seed, P, w, 5);
+            let mut mine = Vec::new();
+            for (i, e) in targets.iter().enumerate() {
+                if i % n != w {
+                    continue;
+                }
+                for _try in 0..10 {
+                    let r0s = crate::eng::elligator_r0_for_exponent(ctx, &sy, e, &mut rng);
+                    if r0s.is_empty() {
+                        continue;
+                    }
+                    for r0 in r0s {
+                        // confirm (model side) what is actually presented to the square root
+                        let r = f.mul(&c.zeta, &f.sq(&r0));
+                        let dma = f.sub(&c.d, &c.a);
+                        let den = f.mul(&f.sub(&f.mul(&c.d, &r), &dma), &f.sub(&f.mul(&dma, &r), &c.d));
+                        let num = f.mul(&f.add(&r, &b(1)), &f.sub(&c.a, &f.mul(&b(2), &c.d)));
+                        let x = f.mul(&num, &den);
+                        if let Some(xi) = f.inv(&x) {
+                            let seen = crate::c09::dlog2(ctx, &sy, &f.pow(&xi, &sy.m));
+                            if &seen != e {
+                                rec.inconclusive("harness: engineered Elligator input does not have the intended exponent");
+                            }
+                            crate::c09::record_windows_as(rec, "elligator-sqrt-window", &seen);
+                        }
+                        mine.push((r0, "engineered-sqrt-exponent"));
+                    }
+                    break;
+                }
+            }
+            found.lock().unwrap().extend(mine);
+        });
+        let mut v = found.into_inner().unwrap();
+        v.sort();
+        rec.count("engineered_r0", v.len() as u64);
+        inputs.extend(v);
+        for name in ["e", "-e"] {
+            for off in crate::c09::WINDOW_OFFSETS {
+                let key = format!("elligator-sqrt-window[{name}>>{off}]");
+                let want = 1usize << (47 - off).min(8);
+                let have = rec.sets.get(&key).map(|s| s.len()).unwrap_or(0);
+                if have < want {
+                    rec.inconclusive(format!("engineered Elligator inputs: {key} saw {have}/{want} values"));
+                }
+            }
+        }
     }
     rec.declare_form("encode_to_curve");
     rec.declare_form("hash_to_curve");
@@ -83,9 +137,18 @@ pub fn run(ctx: &Ctx, rec: &mut Rec) {
                 }
             };
             let a = pick(&mut rng);
-            let bb = match rep % 7 {
+            // algebraically related second inputs: +-c * a^(+-1) for small structural constants c
+            let inv_or = |v: &B| f.inv(v).unwrap_or_else(|| b(0));
+            let consts = [b(1), c.zeta.clone(), inv_or(&c.zeta), f.sq(&c.zeta), c.d.clone(), f.sub(&c.a, &c.d), b(2)];
+            let bb = match rep % 11 {
                 0 => a.clone(),
                 1 => f.neg(&a),
+                2 | 3 | 4 | 5 => {
+                    let k = &consts[rand_range(&mut rng, consts.len())];
+                    let base = if rep % 2 == 0 { inv_or(&a) } else { a.clone() };
+                    let v = f.mul(k, &base);
+                    if rand_range(&mut rng, 2) == 0 { v } else { f.neg(&v) }
+                }
                 _ => pick(&mut rng),
             };
             let (Some((ma, _)), Some((mb, _))) = (c.elligator_spec(&a), c.elligator_spec(&bb)) else { continue };
